@@ -238,6 +238,13 @@ def run(prop: str, tier: str, seed: int, replay: str | None, scratch: str) -> in
         "known_findings_seen": [f.key for f in ctx.failures if f.key in known_keys],
         "partial": getattr(mod, "PARTIAL", ""),
     }
+    if not ctx.discharged:
+        # nothing was proved on this run (the property module no longer builds against the regenerated kernels): the
+        # proof-level keys are withheld rather than written as 0 — what remains is what the run did cover, the
+        # correspondence and the failing-input search
+        cov["obligations_stated"] = cov.pop("obligations")
+        cov.pop("discharged")
+        cov["explanation"] = ("no proof obligation was discharged on this run: " + "; ".join(broken)[:400])
     ev = {"property_id": prop, "tier": tier, "seed": seed, "level": "proof", "coverage": cov,
           "assumptions": list(getattr(mod, "ASSUMPTIONS", [])) + ctx.assumptions,
           "wall_s": round(time.time() - ctx.t0, 2), "violations": nviol}
